@@ -10,7 +10,7 @@ COQ_AGREE = "agree"
 COQ_PROP_OK = "prop_ok"
 RULE = ("seeded generator: kind in {time scheduler, step scheduler, periodic save condition}; interval in ticks of 2^-6 s "
         "(incl. 0); 0-3 callbacks each reading the clock 0-2 times; operation lists of update/register/remove (down to no callback at all, and registering again later), some updates with a callback that raises; a scripted "
-        "clock that advances on every single read by amounts clustered around the threshold.  Non-trivial = the trace "
+        "clock that advances on every single read by amounts clustered around the threshold; the list handed to the constructor is emptied and given a stranger right afterwards (the scheduler must have its own).  Non-trivial = the trace "
         "contains at least one firing and at least one non-firing update; distinct = different canonical JSON input.")
 TRUSTED = [
     "Coq 8.16.1 kernel incl. vm_compute (no native_compute)",
